@@ -310,11 +310,20 @@ func (g *gen) someRound() int64 {
 
 func (g *gen) someValue() int64 { return g.values[g.rng.Intn(len(g.values))] }
 
+// byzValue: a Byzantine member may also vote for / propose / claim the empty value 0 (the wire layer
+// admits a zero value hash in every message type); honest members never do.
+func (g *gen) byzValue() int64 {
+	if g.rng.Chance(1, 5) {
+		return 0
+	}
+	return g.someValue()
+}
+
 // forge: an arbitrary core signed by Byzantine member b (no junk in fields the type does not use,
 // so that Go's map-order dependent choices between equal-looking cores stay unobservable).
 func (g *gen) forge(b int64) core {
 	t := int64(1 + g.rng.Intn(4))
-	c := core{Typ: t, Src: b, Round: g.someRound(), Value: g.someValue()}
+	c := core{Typ: t, Src: b, Round: g.someRound(), Value: g.byzValue()}
 	if t == 4 {
 		c.Value = 0
 		if g.rng.Chance(1, 2) {
@@ -335,7 +344,7 @@ func (g *gen) byzMsg() (wire, bool) {
 	switch g.rng.Intn(7) {
 	case 0: // plain vote (PREPARE / COMMIT) for any value, several values over time
 		t := int64(2 + g.rng.Intn(2))
-		return wire{C: core{Typ: t, Src: b, Round: g.someRound(), Value: g.someValue()}}, true
+		return wire{C: core{Typ: t, Src: b, Round: g.someRound(), Value: g.byzValue()}}, true
 	case 1: // ROUND-CHANGE with a forged or real prepared claim
 		r := g.someRound() + 1
 		c := core{Typ: 4, Src: b, Round: r}
@@ -355,7 +364,7 @@ func (g *gen) byzMsg() (wire, bool) {
 		if g.leader(r) != b {
 			return wire{}, false
 		}
-		v := g.someValue()
+		v := g.byzValue()
 		var just []core
 		if r > 1 {
 			just = g.qrcFor(r, v)
@@ -375,6 +384,11 @@ func (g *gen) byzMsg() (wire, bool) {
 				}
 				cs = g.honestCores(func(c core) bool { return c.Typ == 3 && c.Round == r && c.Value == v })
 			}
+		}
+		if g.rng.Chance(1, 6) {
+			// DECIDED for the empty value on top of the authentic COMMITs of that round, whatever their value
+			v = 0
+			cs = g.honestCores(func(c core) bool { return c.Typ == 3 && c.Round == r })
 		}
 		for _, bb := range bs {
 			cs = append(cs, core{Typ: 3, Src: bb, Round: r, Value: v})
